@@ -231,6 +231,10 @@ Fixpoint subst_term (sg:list (str * term)) (t:term) : term :=
 
 Definition all_in (l:list str) (keys:list str) : bool := forallb (fun p => mem_str p keys) l.
 
+(* the result of binding parameters: a number when no parameter is left (all values numeric), still symbolic when the
+   values passed were themselves parameters of an enclosing template (nested includes) *)
+Definition close_kind (t:term) : value := match term_pars t with [] => VFlt t | _ => VSym t end.
+
 (* value of a symbolic argument once every parameter has a value; the numeric kind of the result is that of
    the implementation's lambdified function and is not modelled: VFlt stands for "a number" *)
 (* instantiation descends into keyword lists and arrays (the inner fix is mapM (inst_value sg), written out for
@@ -242,7 +246,7 @@ Fixpoint inst_value (sg:list (str * term)) (v:value) : outcome value :=
                      | x :: l' => do y <- inst_value sg x; do ys <- go l'; Ok (y :: ys)
                      end in
   match v with
-  | VSym t => if all_in (term_pars t) (map fst sg) then Ok (VFlt (subst_term sg t)) else Refuse EMissingParam
+  | VSym t => if all_in (term_pars t) (map fst sg) then Ok (close_kind (subst_term sg t)) else Refuse EMissingParam
   | VList l => do l' <- inst_list l; Ok (VList l')
   | VArr k r c elems => do es <- inst_list elems; Ok (VArr k r c es)
   | _ => Ok v
@@ -271,7 +275,7 @@ Definition instantiate (sg:list (str * term)) (p:prog) : outcome prog :=
   end.
 
 Definition value_term (v:value) : option term :=
-  match v with VInt z => Some (int_term z) | VFlt t => Some t | VCpx t => Some t | _ => None end.
+  match v with VInt z => Some (int_term z) | VFlt t => Some t | VCpx t => Some t | VSym t => Some t | _ => None end.
 
 Definition same_set (a b:list str) : bool := (all_in a b && all_in b a)%bool.
 
